@@ -108,7 +108,52 @@ def get_ode_eqn(vc):
     vc.canary('canary: reachable', z3.BoolVal(False))
 
 
-@contract('C01/get_StateChangeMatrix', ['C01', 'C10', 'C04'], BAS + 'get_StateChangeMatrix', max_paths=4000)
+def _replay_vmat(clause, m):
+    """random event lists (several transitions per event, the same state touched by more than one of them, numeric and symbolic
+    magnitudes) against the definition: vMat[i, e] = sum of the signed magnitudes of the transitions of event e that touch state i"""
+    import numpy as np
+    import sympy
+    from contracts import native
+    pm = native.imp('pygom.model')
+    rng = np.random.default_rng(11)
+    bad, inp = [], None
+    r, q = sympy.Symbol('r'), sympy.Symbol('q')
+    try:
+        with native.quiet():
+            for _ in range(80):
+                nS = int(rng.integers(1, 5))
+                states = ['s%d' % i for i in range(nS)]
+                events, want = [], []
+                for e in range(int(rng.integers(1, 4))):
+                    trs, col = [], [sympy.Integer(0)] * nS
+                    for k in range(int(rng.integers(1, 4))):
+                        typ = (['B', 'D', 'T'] if nS > 1 else ['B', 'D'])[int(rng.integers(0, 3 if nS > 1 else 2))]
+                        mag = ['1', '2', '3', 'q'][int(rng.integers(0, 4))]
+                        mv = sympy.sympify(mag, locals={'q': q})
+                        o, d = int(rng.integers(0, nS)), int(rng.integers(0, nS))
+                        if typ == 'B':
+                            trs.append(pm.Transition(destination=states[d], transition_type='B', magnitude=mag)); col[d] += mv
+                        elif typ == 'D':
+                            trs.append(pm.Transition(origin=states[o], transition_type='D', magnitude=mag)); col[o] -= mv
+                        else:
+                            while d == o:
+                                d = int(rng.integers(0, nS))
+                            trs.append(pm.Transition(origin=states[o], destination=states[d], transition_type='T', magnitude=mag)); col[o] -= mv; col[d] += mv
+                    events.append(pm.Event(rate='r*%s' % states[0], transition_list=trs)); want.append(col)
+                ode = pm.SimulateOde(states, ['r', 'q'], event=events)
+                got = sympy.Matrix(ode.get_StateChangeMatrix())
+                exp = sympy.Matrix(want).T
+                diff = (got - exp).subs({sympy.Symbol('q', real=True): q}) if got.shape == exp.shape else None
+                if diff is None or any(sympy.simplify(sympy.sympify(str(x)) ) != 0 for x in diff):
+                    inp = "states %s, events %s" % (states, [[(str(t.transition_type), t.origin, t.destination, t._magnitude) for t in ev.transition_list] for ev in events])
+                    bad.append("state change matrix %s, definition gives %s" % (got.tolist(), exp.tolist()))
+                    break
+    except Exception as e:
+        bad.append("raises %s: %s" % (type(e).__name__, e))
+    return {'reproduced': bool(bad), 'observed': bad, 'input': inp or '80 random event lists'}
+
+
+@contract('C01/get_StateChangeMatrix', ['C01', 'C10', 'C04'], BAS + 'get_StateChangeMatrix', max_paths=4000, replay=_replay_vmat)
 def state_change(vc):
     """vMat[i, e] = net signed magnitude of event e on state i (sum over its transitions)"""
     mv = ModelView(vc)
